@@ -18,11 +18,16 @@ CONSTANTS Genesis,     \* function: genesis outpoint id -> [d, owner, lock]
           Txs,         \* function: tx id -> [ins, outs, sig, chain]   (the transaction universe)
           DenomValue,  \* function: denomination -> value in qits
           RYW,         \* does the batch report its own uncommitted writes (ethdb pending view)
+          BaseFeeOn,   \* the header carries a non-zero base fee: a transaction must pay a fee (>= 1 qit covers the gas at the
+                       \* harness's base fee of 1 wei); Qi->Quai conversions exist only in this regime (the conversion ETX's
+                       \* gas is fee / base fee)
           MaxTxPerBlock, MaxBlocks
 
 (* A transaction: ins  = sequence of [o |-> outpoint, key |-> key name]
                   outs = sequence of [d |-> denomination, to |-> address name or "quai:X" / "zoneB:X"]
                   sig  \in {"ok", "bad", "wrongkeys"}, chain \in {"ours", "other"}
+   optional field data = "conv": the transaction carries conversion data (params.MaxQiTxDataLength bytes); its outputs
+   to "quai:X" (own zone, Quai ledger) are then Qi->Quai conversion outputs: aggregated into ONE conversion ETX, not stored.
    An outpoint is <<txid, index>>; genesis outputs are <<"g1", 0>>, ...                    *)
 
 None == [d |-> -1, owner |-> "", lock |-> 0]
@@ -50,8 +55,8 @@ Lookup(b, o) ==
     ELSE IF Has(utxo, o) THEN utxo[o] ELSE None
 
 IsQiLocal(to) == SubSeq(to, 1, 3) = "qi:"     \* address names: "qi:C", "quai:C" (own zone), "zoneB:C" (other zone, Qi)
-IsOtherZoneQi(to) == SubSeq(to, 1, 6) = "zoneB:"
-IsOwnQuai(to) == SubSeq(to, 1, 5) = "quai:"
+IsOtherZoneQi(to) == Len(to) >= 6 /\ SubSeq(to, 1, 6) = "zoneB:"
+IsOwnQuai(to) == Len(to) >= 5 /\ SubSeq(to, 1, 5) = "quai:"
 
 \* ---- input loop of ProcessQiTx: sequential, each input looked up through the batch, then deleted in it
 RECURSIVE Inputs(_, _, _, _)
@@ -70,15 +75,23 @@ InputDenoms(ins, b0) == [i \in 1..Len(ins) |-> Lookup(b0, ins[i].o).d]
 \* ---- output loop: address reuse, ledger/zone of the destination
 \* sequential, as the code does it: for each output first the address-reuse test against everything seen so
 \* far (input owners and earlier outputs), then the ledger / zone of the destination
-RECURSIVE OutLoop(_, _, _)
-OutLoop(outs, j, seen) ==
+IsConv(tx) == "data" \in DOMAIN tx /\ tx.data = "conv"
+IsConvOut(tx, o) == IsConv(tx) /\ IsOwnQuai(o.to)
+RECURSIVE OutLoop(_, _, _, _, _)
+OutLoop(tx, outs, j, seen, convTo) ==
     IF j > Len(outs) THEN "ok"
     ELSE IF outs[j].to \in seen THEN "dupaddr"
+    ELSE IF IsConvOut(tx, outs[j])
+         THEN \* every conversion output of a transaction names the same recipient; the address is not remembered as used
+              IF convTo # "" /\ convTo # outs[j].to THEN "convaddr"
+              ELSE OutLoop(tx, outs, j + 1, seen, outs[j].to)
     ELSE IF ~(IsQiLocal(outs[j].to) \/ IsOtherZoneQi(outs[j].to)) THEN "ledger"
-    ELSE OutLoop(outs, j + 1, seen \cup {outs[j].to})
-OutErr(t) == OutLoop(Txs[t].outs, 1, {"qi:" \o Txs[t].ins[i].key : i \in 1..Len(Txs[t].ins)})
+    ELSE OutLoop(tx, outs, j + 1, seen \cup {outs[j].to}, convTo)
+OutErr(t) == OutLoop(Txs[t], Txs[t].outs, 1, {"qi:" \o Txs[t].ins[i].key : i \in 1..Len(Txs[t].ins)}, "")
 
+\* everything the transaction hands out: stored outputs, outputs sent to other zones AND converted outputs
 OutTotal(t) == FoldLeft(LAMBDA a, o : a + DenomValue[o.d], 0, Txs[t].outs)
+ConvTotal(t) == FoldLeft(LAMBDA a, o : IF IsConvOut(Txs[t], o) THEN a + DenomValue[o.d] ELSE a, 0, Txs[t].outs)
 
 \* ---- CheckDenominations: largest to smallest, surplus carried down; a shortage at any level is an attempt
 \*      to combine smaller denominations into a larger one
@@ -99,8 +112,9 @@ Process(t, b, first) ==
          IF r.err # "ok" THEN [err |-> r.err, b |-> b, fee |-> 0, spent |-> <<>>]
          ELSE IF OutErr(t) # "ok" THEN [err |-> OutErr(t), b |-> b, fee |-> 0, spent |-> <<>>]
          ELSE IF OutTotal(t) > r.total THEN [err |-> "value", b |-> b, fee |-> 0, spent |-> <<>>]
-         ELSE IF ~first /\ ~DenomOK(InputDenoms(tx.ins, b),
-                                    [j \in {k \in 1..Len(tx.outs) : TRUE} |-> tx.outs[j].d], MaxD, 0)
+         ELSE IF BaseFeeOn /\ r.total - OutTotal(t) < 1 THEN [err |-> "fee", b |-> b, fee |-> 0, spent |-> <<>>]
+         ELSE IF ~first /\ ~DenomOK(InputDenoms(tx.ins, b),     \* aggregated conversion outputs do not count as outputs here
+                                    [j \in {k \in 1..Len(tx.outs) : ~IsConvOut(tx, tx.outs[k])} |-> tx.outs[j].d], MaxD, 0)
               THEN [err |-> "denoms", b |-> b, fee |-> 0, spent |-> <<>>]
          ELSE IF tx.sig # "ok" THEN [err |-> "sig", b |-> b, fee |-> 0, spent |-> <<>>]
          ELSE LET puts == [j \in {k \in 1..Len(tx.outs) : IsQiLocal(tx.outs[k].to)} |->
@@ -126,6 +140,7 @@ BeginBlock ==
 \* one transaction of the block; a rejection rejects the whole block (batch dropped, nothing written)
 ProcessTx(t) ==
     /\ inBlock /\ nQi < MaxTxPerBlock
+    /\ IsConv(Txs[t]) => BaseFeeOn
     /\ LET r == Process(t, batch, nQi = 0) IN
        IF r.err = "ok"
        THEN /\ batch' = r.b /\ nQi' = nQi + 1 /\ fees' = fees + r.fee
